@@ -88,15 +88,17 @@ func sp(s string) *string { return &s }
 // ---- policy ------------------------------------------------------------------------------------------------
 
 type policy struct {
-	Name string
-	DSL  string // body of defaults.publish_policy
-	Hdr  string // audit headers sent: "reason" | "none" | "blank" | "full" (reason+actor+request id)
+	Name      string
+	DSL       string // body of defaults.publish_policy
+	Hdr       string // audit headers sent: "reason" | "none" | "blank" | "full" (reason+actor+request id) | "reason512" | "reason513"
+	PairsOnly bool   // never part of the 3-item crossing
 
 	directOff, managedOff, requireActor, requireReqID, pullOff, deliverOff bool
-	actorAllow                                                         string // scoped actor allowlist entry ("" = none)
+	actorAllow                                                             string // scoped actor allowlist entry ("" = none)
 }
 
-func (p policy) hasReason() bool { return p.Hdr == "reason" || p.Hdr == "full" }
+// an audit reason is present when it is non-blank and within the documented 512 characters
+func (p policy) hasReason() bool { return p.Hdr == "reason" || p.Hdr == "full" || p.Hdr == "reason512" }
 func (p policy) actor() string {
 	if p.Hdr == "full" {
 		return "ci-bot"
@@ -109,6 +111,8 @@ var policies = []policy{
 	{Name: "default", Hdr: "reason"},
 	{Name: "no-audit-reason", Hdr: "none"},
 	{Name: "blank-audit-reason", Hdr: "blank"},
+	{Name: "audit-reason-512-chars", Hdr: "reason512", PairsOnly: true},
+	{Name: "audit-reason-513-chars", Hdr: "reason513"},
 	{Name: "direct-off", DSL: "direct off", Hdr: "reason", directOff: true},
 	{Name: "managed-off", DSL: "managed off", Hdr: "reason", managedOff: true},
 	{Name: "require-actor:missing", DSL: "require_actor on", Hdr: "reason", requireActor: true},
@@ -144,6 +148,7 @@ var paths = []pathSpec{
 	{Name: "scoped:epoff", App: "app1", Ep: "epoff", Reduced: true},
 	{Name: "scoped:eppoff", App: "app1", Ep: "eppoff", Reduced: true},
 	{Name: "scoped:unknown", App: "app1", Ep: "nope", Reduced: true},
+	{Name: "scoped:bad-label", App: "bad%20label", Ep: "ep1", Reduced: true}, // URL segment that is no management label
 }
 
 // requestOK: the request-level conditions of the statement (publish permitted by global policy and by the
@@ -355,10 +360,10 @@ func admissible(n, depth int, dropOldest bool, queued, leased int) bool {
 type kind struct {
 	Name    string
 	Primary string // the reference reason this kind was built to exhibit ("" = acceptable item); used for naming only
-	Core   bool // part of the complete 3-item crossing
-	Small  bool // part of the reduced alphabet
-	MinPos int
-	mod    func(it *itemSpec, prev []itemSpec)
+	Core    bool   // part of the complete 3-item crossing
+	Small   bool   // part of the reduced alphabet
+	MinPos  int
+	mod     func(it *itemSpec, prev []itemSpec)
 }
 
 func b64n(n int) string { return base64.StdEncoding.EncodeToString([]byte(strings.Repeat("p", n))) }
@@ -380,12 +385,13 @@ var primaryOf = map[string]string{
 	"unknown_route": "route-unknown", "managed_route": "route-managed-on-global-path",
 	"selector_hints": "managed-selector-on-global-path", "selector_hints_with_route": "managed-selector-on-global-path",
 	"selector_application_only": "managed-selector-incomplete", "selector_bad_label": "managed-selector-label-invalid",
+	"selector_endpoint_only_with_target": "managed-selector-incomplete", "selector_bad_endpoint_label": "managed-selector-label-invalid",
 	"target_missing": "target-missing", "target_of_other_route": "target-not-allowed", "target_not_allowed": "target-not-allowed",
 	"publish_off": "route-publish-off", "publish_direct_off": "route-publish-direct-off",
 	"hint_route": "selector-hint-on-scoped-path", "hint_route_other": "selector-hint-on-scoped-path", "hint_route_relative": "route-relative",
 	"hint_selector": "selector-hint-on-scoped-path", "hint_selector_other": "selector-hint-on-scoped-path",
 	"hint_application_only": "managed-selector-incomplete",
-	"bad_base64": "payload-not-base64", "payload_too_large": "payload-too-large",
+	"bad_base64":            "payload-not-base64", "payload_too_large": "payload-too-large",
 	"headers_too_large": "headers-too-large", "headers_too_large_sum": "headers-too-large",
 	"bad_header_name": "header-name-invalid", "bad_header_name_empty": "header-name-invalid", "bad_header_name_colon": "header-name-invalid",
 	"bad_header_name_space": "header-name-invalid", "bad_header_name_nonascii": "header-name-invalid",
@@ -447,6 +453,12 @@ func kindsFor(ps pathSpec) []kind {
 		add("selector_application_only", false, false, 0, func(it *itemSpec, _ []itemSpec) { it.Application = "app1" })
 		add("selector_bad_label", false, false, 0, func(it *itemSpec, _ []itemSpec) {
 			it.Route, it.Application, it.EndpointName = "", "bad label", "ep1"
+		})
+		add("selector_endpoint_only_with_target", false, false, 0, func(it *itemSpec, _ []itemSpec) {
+			it.Route, it.EndpointName, it.Target = "", "ep1", "pull"
+		})
+		add("selector_bad_endpoint_label", false, false, 0, func(it *itemSpec, _ []itemSpec) {
+			it.Route, it.Application, it.EndpointName = "", "app1", "-ep"
 		})
 		add("target_missing", true, false, 0, func(it *itemSpec, _ []itemSpec) { it.Route, it.Target = rD2, "" })
 		add("target_of_other_route", false, false, 0, func(it *itemSpec, _ []itemSpec) { it.Route, it.Target = rD1, tgt2 })
